@@ -110,6 +110,8 @@ def run(ctx):
         msg = " | ".join(first)
         wrong_answer = "static assertion failed" in msg or "static_assert failed" in msg
         wrong_answer = wrong_answer and any(t in msg for t in ("A is_convertible", "B is_constructible", "C overload", "D common_type"))
+        if not wrong_answer and not core.first_error_in_au(first):
+            raise core.ToolError("generated trait program does not compile (generator bug?): %s" % msg[:600])
         key = {"R1": c["R1"], "R2": c["R2"], "k": kid(c), "kind": "answer" if wrong_answer else "ill-formed"}
         ctx.violation(key, ("trait answers differently from the documented predicate (expected %s)" % c["ok"]) if wrong_answer
                       else "asking is_convertible/is_constructible/common_type makes the program ill-formed" + " [%s] %s" % (cfg, msg[:300]),
